@@ -7,7 +7,8 @@ Stage A: TLC checks AreaLists.tla (decoders and encoders written independently f
 Stage B: TLC generates the cases (model values for the library's encoders, specification-encoded octets for its
          decoders, malformed NSSAIs); the driver replays them and records seeded random values.
 Stage C: TLC (Trace_C13) judges every call: SpecDecode(LibEncode(x)) = x, LibDecode(SpecEncode(x)) = x,
-         malformed NSSAI lengths => error.  The library's choice among legal encodings is never prescribed."""
+         malformed NSSAI lengths => error.  The library's choice among legal encodings is never prescribed.
+Added after seeded round 5: service-area restrictions with TAC-less areas in front of, between and behind the others."""
 import json, os, sys
 sys.path.insert(0, os.path.dirname(os.path.dirname(os.path.abspath(__file__))))
 from vlib import *
